@@ -6,6 +6,7 @@ import (
 	"reflect"
 	"runtime/debug"
 	"strings"
+	"sync"
 	"sync/atomic"
 	"time"
 
@@ -72,6 +73,7 @@ type Context struct {
 	behaviorStack *BehaviorStack                     // 行为栈
 	mailbox       vivid.Mailbox                      // 邮箱
 	children      map[vivid.ActorPath]vivid.ActorRef // 懒加载的子 Actor 引用
+	childrenLock  sync.RWMutex                       // 保护 children：System.ActorOf 在调用方 goroutine 上写入根上下文的 children，与根 Actor 处理子 Actor 终止并发
 	envelop       vivid.Envelop                      // 当前 ActorContext 的消息
 	state         int32                              // 状态
 	zombie        bool                               // 是否为僵尸状态
@@ -175,10 +177,12 @@ func (c *Context) ActorOf(actor vivid.Actor, options ...vivid.ActorOption) (vivi
 		return nil, vivid.ErrorActorAlreadyExists.WithMessage(childCtx.Ref().GetPath())
 	}
 
+	c.childrenLock.Lock()
 	if c.children == nil {
 		c.children = make(map[vivid.ActorPath]vivid.ActorRef)
 	}
 	c.children[childCtx.Ref().GetPath()] = childCtx.Ref()
+	c.childrenLock.Unlock()
 
 	c.tell(true, childCtx.Ref(), new(vivid.OnLaunch))
 	c.Logger().Debug("actor spawned", log.String("path", childCtx.Ref().GetPath()))
@@ -547,7 +551,7 @@ func (c *Context) doKill(message *vivid.OnKill, behavior vivid.Behavior) {
 	c.system.removeFuturesByAgentPath(c.ref.GetPath(), vivid.ErrorActorDeaded)
 
 	// 等待所有子 Actor 结束，假设是重启，子 Actor 不应该跟随重启，应该由父节点决定是否重启
-	for _, child := range c.children {
+	for _, child := range c.Children() {
 		c.Logger().Debug("notify child kill", log.String("path", child.GetPath()))
 		c.Kill(child, message.Poison, message.Reason)
 	}
@@ -640,11 +644,28 @@ func (c *Context) Kill(ref vivid.ActorRef, poison bool, reason ...string) {
 }
 
 func (c *Context) Children() vivid.ActorRefs {
+	c.childrenLock.RLock()
+	defer c.childrenLock.RUnlock()
 	children := make(vivid.ActorRefs, 0, len(c.children))
 	for _, child := range c.children {
 		children = append(children, child)
 	}
 	return children
+}
+
+// removeChild 移除子 Actor 引用并返回剩余数量。
+func (c *Context) removeChild(path vivid.ActorPath) int {
+	c.childrenLock.Lock()
+	defer c.childrenLock.Unlock()
+	delete(c.children, path)
+	return len(c.children)
+}
+
+// childrenCount 返回当前子 Actor 数量。
+func (c *Context) childrenCount() int {
+	c.childrenLock.RLock()
+	defer c.childrenLock.RUnlock()
+	return len(c.children)
 }
 
 func (c *Context) failed(fault vivid.Message) {
